@@ -8,8 +8,11 @@ package main
 import (
 	"encoding/json"
 	"fmt"
+	"hash/fnv"
 	"os"
+	"os/exec"
 	"sort"
+	"strconv"
 	"strings"
 	"time"
 
@@ -723,6 +726,126 @@ func allHarnesses(tier checks.Tier) []harness {
 	return hs
 }
 
+// ---------------------------------------------------------------------------------------------
+// process sharding: the harnesses are independent, the scheduler is process-global - so the parent
+// starts n children, child i explores every harness whose index is i modulo n and writes what it
+// covered to a file; the parent merges the files. Nothing is sampled: the union of the shards is
+// the whole harness list.
+
+type partialFam struct {
+	Executions int64            `json:"executions"`
+	Points     int64            `json:"points"`
+	Histories  []string         `json:"histories"`
+	Outcomes   map[string]int64 `json:"outcomes"`
+	MaxBound   int              `json:"max_bound"`
+	Capped     bool             `json:"capped"`
+	Diverged   int64            `json:"diverged"`
+}
+
+type partial struct {
+	Families  map[string]*partialFam `json:"families"`
+	Viols     []checks.Viol          `json:"violations"`
+	Samples   []interface{}          `json:"samples"`
+	Skipped   int                    `json:"skipped"`
+	Harnesses int                    `json:"harnesses"`
+	SelfCheck string                 `json:"self_check"`
+}
+
+func hashKey(s string) string {
+	h := fnv.New64a()
+	_, _ = h.Write([]byte(s))
+	return strconv.FormatUint(h.Sum64(), 16)
+}
+
+func shardCount() int {
+	n := 6
+	if v, err := strconv.Atoi(os.Getenv("VERIF_E4_SHARDS")); err == nil && v >= 1 {
+		n = v
+	}
+	return n
+}
+
+// runShards starts the children and merges their partial results into fam; it returns the merged
+// samples, the number of harnesses skipped by the time cap and whether every child finished.
+func runShards(tier checks.Tier, stage13 bool, n int, fam map[string]*stats) (samples []interface{}, skipped int, harnesses int) {
+	type child struct {
+		cmd  *exec.Cmd
+		file string
+	}
+	var cs []child
+	tag := "19"
+	if stage13 {
+		tag = "13"
+	}
+	for i := 0; i < n; i++ {
+		file := fmt.Sprintf("%s/.work/partial%s_%d.json", checks.Root, tag, i)
+		_ = os.Remove(file)
+		args := []string{string(tier)}
+		if stage13 {
+			args = append(args, "stage13")
+		}
+		args = append(args, fmt.Sprintf("--shard=%d/%d", i, n), "--partial="+file)
+		cmd := exec.Command(os.Args[0], args...)
+		cmd.Env = append(os.Environ(), "GOMAXPROCS=2")
+		cmd.Stdout, cmd.Stderr = os.Stdout, os.Stderr
+		if err := cmd.Start(); err != nil {
+			fmt.Printf("SELF-CHECK property=%s cannot start explorer shard %d: %v\n", P, i, err)
+			os.Exit(2)
+		}
+		cs = append(cs, child{cmd, file})
+	}
+	for i, c := range cs {
+		err := c.cmd.Wait()
+		b, rerr := os.ReadFile(c.file)
+		var pt partial
+		if err != nil || rerr != nil || json.Unmarshal(b, &pt) != nil {
+			fmt.Printf("SELF-CHECK property=%s explorer shard %d did not deliver its result (%v / %v)\n", P, i, err, rerr)
+			os.Exit(2)
+		}
+		if pt.SelfCheck != "" {
+			fmt.Printf("SELF-CHECK property=%s %s\n", P, pt.SelfCheck)
+			os.Exit(2)
+		}
+		for f, pf := range pt.Families {
+			st := fam[f]
+			if st == nil {
+				st = &stats{histories: map[string]bool{}, outcomes: map[string]int64{}}
+				fam[f] = st
+			}
+			st.executions += pf.Executions
+			st.points += pf.Points
+			st.diverged += pf.Diverged
+			st.capped = st.capped || pf.Capped
+			if pf.MaxBound > st.maxBound {
+				st.maxBound = pf.MaxBound
+			}
+			for _, h := range pf.Histories {
+				st.histories[h] = true
+			}
+			for k, v := range pf.Outcomes {
+				st.outcomes[k] += v
+			}
+		}
+		for _, v := range pt.Viols {
+			k := v.Clause + "/" + v.Sig
+			if !violSeen[k] {
+				violSeen[k] = true
+				viols = append(viols, v)
+			}
+		}
+		if len(samples) < 8 {
+			samples = append(samples, pt.Samples...)
+		}
+		skipped += pt.Skipped
+		harnesses += pt.Harnesses
+		_ = os.Remove(c.file)
+	}
+	if len(samples) > 8 {
+		samples = samples[:8]
+	}
+	return samples, skipped, harnesses
+}
+
 func main() {
 	if len(os.Args) > 2 && os.Args[1] == "replay" {
 		os.Exit(runReplay(os.Args[2]))
@@ -734,6 +857,15 @@ func main() {
 	// second stage of C13: the isolation harnesses only (executions on the same function objects
 	// overlapping in time must observe what they observe alone), reported under C13
 	stage13 := len(os.Args) > 2 && os.Args[2] == "stage13"
+	shardI, shardN, partialFile := 0, 1, ""
+	for _, a := range os.Args[1:] {
+		if strings.HasPrefix(a, "--shard=") {
+			_, _ = fmt.Sscanf(a, "--shard=%d/%d", &shardI, &shardN)
+		}
+		if strings.HasPrefix(a, "--partial=") {
+			partialFile = strings.TrimPrefix(a, "--partial=")
+		}
+	}
 	start := time.Now()
 	bodies.Hook = func(kind string) { vsched.Point(vsched.Op{Kind: "env." + kind}) }
 	bodies.Tick = vsched.Tick
@@ -755,7 +887,19 @@ func main() {
 	exhaustive := true
 	var samples []interface{}
 	skipped := 0
-	for _, h := range hs {
+	explored := 0
+	parent := partialFile == "" && shardCount() > 1
+	if parent {
+		samples, skipped, explored = runShards(tier, stage13, shardCount(), fam)
+		if skipped > 0 {
+			exhaustive = false
+		}
+	}
+	for hi, h := range hs {
+		if parent || hi%shardN != shardI {
+			continue
+		}
+		explored++
 		f := harnessFamily(h.name)
 		st := fam[f]
 		if st == nil {
@@ -779,6 +923,21 @@ func main() {
 		if len(samples) < 8 && (len(samples) == 0 || st.executions-before > 50) {
 			samples = append(samples, map[string]interface{}{"harness": h.name, "preemption_bound": h.bound, "schedules_executed": st.executions - before})
 		}
+	}
+	if partialFile != "" {
+		pt := partial{Families: map[string]*partialFam{}, Viols: viols, Samples: samples, Skipped: skipped, Harnesses: explored - skipped}
+		for f, st := range fam {
+			pf := &partialFam{Executions: st.executions, Points: st.points, Outcomes: st.outcomes, MaxBound: st.maxBound, Capped: st.capped, Diverged: st.diverged}
+			for h := range st.histories {
+				pf.Histories = append(pf.Histories, hashKey(h))
+			}
+			pt.Families[f] = pf
+		}
+		b, _ := json.Marshal(pt)
+		if err := os.WriteFile(partialFile, b, 0o644); err != nil {
+			os.Exit(3)
+		}
+		os.Exit(0)
 	}
 	// the separate free-running race pass (not model checking; reported separately)
 	var race map[string]interface{}
@@ -828,7 +987,8 @@ func main() {
 		"transitions":                   points,
 		"traces_validated_against_impl": execs,
 		"schedules_executed":            execs,
-		"harnesses":                     len(hs) - skipped,
+		"harnesses":                     explored - map[bool]int{true: 0, false: skipped}[parent],
+		"explorer_processes":            map[bool]int{true: shardCount(), false: 1}[parent],
 		"harnesses_skipped_by_time_cap": skipped,
 		"families":                      famOut,
 		"exhaustive":                    exhaustive,
